@@ -171,7 +171,9 @@ class Check(PropertyCheck):
                   "completion hook: over the whole history exactly one record of the flow iff it matches at completion), "
                   "completion_record_goes_to_formatted_path + stream_file_handle_is_current_path + completion_file_reachable "
                   "(after any history the record is appended to the file named by the strftime pattern at the time of the "
-                  "hook, no other file changes; the file system handle always equals the addon's current path), plus the reachable-state "
+                  "hook, no other file changes; the file system handle always equals the addon's current path), reachable-state forms "
+                  "without the invariant hypothesis (completion_appends_exactly_one_reachable, no_record_before_completion_reachable, "
+                  "lifecycle_written_exactly_once_reachable, started_uncompleted_written_once_reachable), plus the reachable-state "
                   "invariants (stream open <-> path set, writer filter = current filter, no duplicate open flows, "
                   "open flows only while streaming). The model is tied to the real Save/FilteredFlowWriter by replaying "
                   "identical histories and comparing, after every event, exception/exit status, stream open, the open-flow "
